@@ -21,7 +21,8 @@ pub struct Header {
 // A-crypto: hashes are uninterpreted and collision free (injectivity axioms below)
 pub uninterp spec fn header_hash(h: Header) -> TmHash;
 pub uninterp spec fn set_hash(s: Set) -> TmHash;
-pub uninterp spec fn dah_hash(d: DataAvailabilityHeader) -> TmHash;
+// the DAH hash IS the simple merkle hash of all row roots followed by all column roots (proved for the real `hash()` below)
+pub open spec fn dah_hash(d: DataAvailabilityHeader) -> TmHash { simple_hash_spec(roots_bytes(d)) }
 pub uninterp spec fn chain_len(c: ChainId) -> nat;
 pub uninterp spec fn default_hash() -> TmHash;
 pub uninterp spec fn sig_len(s: Signature) -> nat;
@@ -78,10 +79,74 @@ pub fn max_extended_square_width(v: AppVersion) -> (r: usize) ensures r == max_w
 
 pub struct NamespacedHash { pub v: u64 }
 pub struct DataAvailabilityHeader { pub row_roots: Vec<NamespacedHash>, pub column_roots: Vec<NamespacedHash> }
-impl DataAvailabilityHeader {
-    // body: simple_hash_from_byte_vectors::<Sha256> over row roots ++ column roots (A-crypto)
+// simple_hash_from_byte_vectors::<Sha256> over the 90-byte arrays of the roots (A-crypto: uninterpreted, collision free)
+pub uninterp spec fn nh_array(h: NamespacedHash) -> Seq<u8>;
+pub uninterp spec fn simple_hash_spec(items: Seq<Seq<u8>>) -> TmHash;
+pub open spec fn vviews(s: Seq<Vec<u8>>) -> Seq<Seq<u8>> { Seq::new(s.len(), |i: int| s[i]@) }
+pub open spec fn arrays(s: Seq<NamespacedHash>) -> Seq<Seq<u8>> { Seq::new(s.len(), |i: int| nh_array(s[i])) }
+pub open spec fn roots_bytes(d: DataAvailabilityHeader) -> Seq<Seq<u8>> {
+    arrays(d.row_roots@) + arrays(d.column_roots@)
+}
+impl NamespacedHash {
     #[verifier::external_body]
-    pub fn hash(&self) -> (r: TmHash) ensures r == dah_hash(*self) { unimplemented!() }
+    pub fn to_array(&self) -> (r: Vec<u8>) ensures r@ == nh_array(*self) { unimplemented!() }
+}
+#[verifier::external_body]
+pub fn vx_simple_hash_sha256(items: &Vec<Vec<u8>>) -> (r: TmHash)
+    ensures r == simple_hash_spec(vviews(items@))
+{ unimplemented!() }
+impl DataAvailabilityHeader {
+//@fn impl DataAvailabilityHeader :: hash @ types/src/data_availability_header.rs
+//@props C01
+    pub fn hash(&self) -> (r: TmHash)
+        ensures r == simple_hash_spec(roots_bytes(*self)), r == dah_hash(*self)
+//@sub E8 "let all_roots: Vec<_> = self .row_roots .iter() .chain(self.column_roots.iter()) .map(|root| root.to_array()) .collect();"
+        let mut all_roots: Vec<Vec<u8>> = Vec::new();
+        let mut __a: usize = 0;
+        while __a < self.row_roots.len()
+            invariant __a <= self.row_roots@.len(),
+                vviews(all_roots@) == arrays(self.row_roots@.subrange(0, __a as int)),
+            decreases self.row_roots@.len() - __a
+        {
+            let root = &self.row_roots[__a]; __a += 1;
+            let ghost prev = all_roots@;
+            all_roots.push(root.to_array());
+            proof {
+                let tgt = arrays(self.row_roots@.subrange(0, __a as int));
+                let tprev = arrays(self.row_roots@.subrange(0, __a as int - 1));
+                assert(vviews(prev) == tprev);
+                assert forall|i: int| 0 <= i < tgt.len() implies vviews(all_roots@)[i] == tgt[i] by {
+                    if i < prev.len() { assert(all_roots@[i] == prev[i]); assert(vviews(prev)[i] == tprev[i]); }
+                }
+                assert(vviews(all_roots@) =~= tgt);
+            }
+        }
+        let mut __b: usize = 0;
+        while __b < self.column_roots.len()
+            invariant __b <= self.column_roots@.len(),
+                vviews(all_roots@) == arrays(self.row_roots@)
+                    + arrays(self.column_roots@.subrange(0, __b as int)),
+            decreases self.column_roots@.len() - __b
+        {
+            let root = &self.column_roots[__b]; __b += 1;
+            let ghost prev = all_roots@;
+            all_roots.push(root.to_array());
+            proof {
+                let tgt = arrays(self.row_roots@) + arrays(self.column_roots@.subrange(0, __b as int));
+                let tprev = arrays(self.row_roots@) + arrays(self.column_roots@.subrange(0, __b as int - 1));
+                assert(vviews(prev) == tprev);
+                assert forall|i: int| 0 <= i < tgt.len() implies vviews(all_roots@)[i] == tgt[i] by {
+                    if i < prev.len() { assert(all_roots@[i] == prev[i]); assert(vviews(prev)[i] == tprev[i]); }
+                }
+                assert(vviews(all_roots@) =~= tgt);
+            }
+        }
+        proof {
+            assert(self.row_roots@.subrange(0, self.row_roots@.len() as int) =~= self.row_roots@);
+            assert(self.column_roots@.subrange(0, self.column_roots@.len() as int) =~= self.column_roots@);
+        }
+//@sub E9 "Hash::Sha256(simple_hash_from_byte_vectors::<Sha256>(&all_roots))" => "vx_simple_hash_sha256(&all_roots)"
+//@end
 }
 
 pub struct ExtendedHeader { pub header: Header, pub commit: Commit, pub validator_set: Set, pub dah: DataAvailabilityHeader }
@@ -251,7 +316,20 @@ pub open spec fn range_ok(t: ExtendedHeader, us: Seq<ExtendedHeader>, n: int) ->
 // A-tendermint: heights are bounded by i64::MAX; validator sets satisfy their constructor invariant
 pub open spec fn eh_inv(e: ExtendedHeader) -> bool { e.header.height.v <= 0x7fff_ffff_ffff_ffff && set_valid(e.validator_set) }
 
+// protobuf decoding (prost + tendermint TryFrom conversions): opaque relation; decoded values satisfy the tendermint invariants (A-prost, A-tendermint)
+pub uninterp spec fn decoded_from(bytes: Seq<u8>, e: ExtendedHeader) -> bool;
 impl ExtendedHeader {
+    #[verifier::external_body]
+    pub fn decode(bytes: &[u8]) -> (r: Result<ExtendedHeader>)
+        ensures r.is_ok() ==> decoded_from(bytes@, r.unwrap()) && eh_inv(r.unwrap())
+    { unimplemented!() }
+
+//@fn impl ExtendedHeader :: decode_and_validate
+//@props C01 C16 C28
+    pub fn decode_and_validate(bytes: &[u8]) -> (res: Result<Self>)
+        ensures res.is_ok() ==> decoded_from(bytes@, res.unwrap()) && validate_core(res.unwrap())
+//@end
+
 //@fn impl ExtendedHeader :: chain_id
 //@props C02
     pub fn chain_id(&self) -> (r: &ChainId) ensures *r == self.header.chain_id
@@ -390,8 +468,32 @@ pub proof fn axiom_set_hash_injective(s1: Set, s2: Set)
     ensures set_hash(s1) == set_hash(s2) ==> (s1.validators_@.len() == s2.validators_@.len()
         && forall|i: int| 0 <= i < s1.validators_@.len() ==> (#[trigger] s1.validators_@[i]).pub_key == s2.validators_@[i].pub_key && s1.validators_@[i].power_ == s2.validators_@[i].power_) { }
 #[verifier::external_body]
+pub proof fn axiom_simple_hash_injective(a: Seq<Seq<u8>>, b: Seq<Seq<u8>>)
+    ensures simple_hash_spec(a) == simple_hash_spec(b) ==> a == b { }
+#[verifier::external_body]
+pub proof fn axiom_nh_array_injective(a: NamespacedHash, b: NamespacedHash)
+    ensures nh_array(a) == nh_array(b) ==> a == b { }
 pub proof fn axiom_dah_hash_injective(d1: DataAvailabilityHeader, d2: DataAvailabilityHeader)
-    ensures dah_hash(d1) == dah_hash(d2) ==> (d1.row_roots@ == d2.row_roots@ && d1.column_roots@ == d2.column_roots@) { }
+    requires d1.row_roots@.len() == d1.column_roots@.len(), d2.row_roots@.len() == d2.column_roots@.len()
+    ensures dah_hash(d1) == dah_hash(d2) ==> (d1.row_roots@ == d2.row_roots@ && d1.column_roots@ == d2.column_roots@)
+{
+    if dah_hash(d1) == dah_hash(d2) {
+        axiom_simple_hash_injective(roots_bytes(d1), roots_bytes(d2));
+        let a = roots_bytes(d1); let b = roots_bytes(d2);
+        assert(a.len() == 2 * d1.row_roots@.len() && b.len() == 2 * d2.row_roots@.len());
+        let n = d1.row_roots@.len() as int;
+        assert forall|i: int| 0 <= i < n implies d1.row_roots@[i] == d2.row_roots@[i] by {
+            assert(a[i] == nh_array(d1.row_roots@[i]) && b[i] == nh_array(d2.row_roots@[i]));
+            axiom_nh_array_injective(d1.row_roots@[i], d2.row_roots@[i]);
+        }
+        assert forall|i: int| 0 <= i < n implies d1.column_roots@[i] == d2.column_roots@[i] by {
+            assert(a[n + i] == nh_array(d1.column_roots@[i]) && b[n + i] == nh_array(d2.column_roots@[i]));
+            axiom_nh_array_injective(d1.column_roots@[i], d2.column_roots@[i]);
+        }
+        assert(d1.row_roots@ =~= d2.row_roots@);
+        assert(d1.column_roots@ =~= d2.column_roots@);
+    }
+}
 
 // any field covered by the block hash (incl. data hash, validators hash, height, time, chain id ...)
 pub proof fn lemma_c01_header_field(e: ExtendedHeader, e2: ExtendedHeader)
@@ -403,7 +505,7 @@ pub proof fn lemma_c01_dah_root(e: ExtendedHeader, e2: ExtendedHeader)
     requires validate_core(e), e2.header == e.header,
         e2.dah.row_roots@ != e.dah.row_roots@ || e2.dah.column_roots@ != e.dah.column_roots@
     ensures !validate_core(e2)
-{ axiom_dah_hash_injective(e.dah, e2.dah); }
+{ if validate_core(e2) { axiom_dah_hash_injective(e.dah, e2.dah); } }
 // any validator key or power (or adding/removing a validator)
 pub proof fn lemma_c01_validator(e: ExtendedHeader, e2: ExtendedHeader, i: int)
     requires validate_core(e), e2.header == e.header,
